@@ -43,7 +43,15 @@ def run(ctx, rep):
         if bs:
             sy = S.Sym(cx, krates=("pgcontrols",))
             res = sy.eval_body(bs[0])
-            outs[nm] = sorted(set(("Some" if o[1][0] == "adt" and o[1][2] == "Some" else ("None" if o[1] == S.NONE else "maybe"))
-                                  for st, o in res if fc.assignment(st.conds).get(("is", ("in", "x"), "Some")) is True))
+            def shape(st, v):
+                # Some(..) literally, or a term the path conditions say is Some (Some(t!Some) is printed as t)
+                if v[0] == "adt" and v[2] == "Some":
+                    return "Some"
+                if v == S.NONE:
+                    return "None"
+                at, pol = fc.canon_atom(("is", v, "Some"))
+                known = fc.assignment(st.conds).get(at)
+                return "Some" if known is not None and (known == pol) else "maybe"
+            outs[nm] = sorted(set(shape(st, o[1]) for st, o in res if fc.assignment(st.conds).get(("is", ("in", "x"), "Some")) is True))
     rep.control("C08.1", outs.get("ctl_and_then_drops") not in (None, ["Some"]) and outs.get("ok_map_keeps") == ["Some"],
                 "Option-shape analysis separates and_then (may drop) from map+fallback (keeps): %s" % outs)
